@@ -16,6 +16,7 @@ package cloc
 
 // one row per directory named by the report files, under a header naming the languages
 //@ func ConvertToCsv
+//@ modifies files
 //@ ensures len(result) >= 1 && IsHeadRow(result[0], keys)
 //@ ensures forall r int :: {result[r]} 1 <= r && r < len(result) ==> FileDirIn(outputFiles, len(outputFiles), result[r][0]) && len(result[r]) == 2 + len(keys)
 //@ ensures forall j int :: {outputFiles[j]} 0 <= j && j < len(outputFiles) ==> (exists r int :: 1 <= r && r < len(result) && result[r][0] == Dir(outputFiles[j]))
